@@ -612,8 +612,8 @@ fn chain_part(run: &Run, shard: usize, n: usize, n_hist: u64, deadline: f64) {
 				let head = chain.head().unwrap().last_block_h;
 				let world = h.world.clone();
 				let k = h.fresh_key();
-				let kind = p.below(3);
-				let name = ["chain_coinbase_overclaim", "chain_unbalanced_tx", "chain_coinbase_overclaim_with_burn"][kind as usize];
+				let kind = p.below(5);
+				let name = ["chain_coinbase_overclaim", "chain_unbalanced_tx", "chain_coinbase_overclaim_with_burn", "chain_range_proofs_swapped", "chain_kernel_signatures_swapped"][kind as usize];
 				let prevh = h.ledger.header(&head).clone();
 				let mut pf = h.prng.fork(3);
 				let blk: Option<Block> = match kind {
@@ -627,6 +627,29 @@ fn chain_part(run: &Run, shard: usize, n: usize, n_hist: u64, deadline: f64) {
 						let (tx, _) = world.tx(&mut pf, &[c.clone()], &[(c.value - fee + 5, ko)], KernelFeatures::Plain { fee: fee_fields(fee) });
 						let (o, kn) = world.coinbase(&k, fee);
 						Block::from_reward(&prevh, &[tx], o, kn, grin_core::pow::Difficulty::from_num(1 + p.below(500))).ok()
+					}),
+					3 | 4 => h.spendable(&head).first().cloned().and_then(|c| {
+						// a balanced block whose outputs carry each other's range proofs / whose kernels carry each
+						// other's signatures: sums, coinbase, roots all right, only proof / signature verification can refuse it
+						let ko = h.fresh_key();
+						let fee = 1_000_000;
+						let (tx, _) = world.tx(&mut pf, &[c.clone()], &[(c.value - fee, ko)], KernelFeatures::Plain { fee: fee_fields(fee) });
+						let (o, kn) = world.coinbase(&k, fee);
+						Block::from_reward(&prevh, &[tx], o, kn, grin_core::pow::Difficulty::from_num(1 + p.below(500))).ok().and_then(|mut b| {
+							if kind == 3 && b.body.outputs.len() >= 2 {
+								let x = b.body.outputs[0].proof;
+								b.body.outputs[0].proof = b.body.outputs[1].proof;
+								b.body.outputs[1].proof = x;
+								Some(b)
+							} else if kind == 4 && b.body.kernels.len() >= 2 {
+								let x = b.body.kernels[0].excess_sig;
+								b.body.kernels[0].excess_sig = b.body.kernels[1].excess_sig;
+								b.body.kernels[1].excess_sig = x;
+								Some(b)
+							} else {
+								None
+							}
+						})
 					}),
 					_ => h.spendable(&head).first().cloned().and_then(|c| {
 						let ko = h.fresh_key();
@@ -642,14 +665,17 @@ fn chain_part(run: &Run, shard: usize, n: usize, n_hist: u64, deadline: f64) {
 					b.header.pow.proof.edge_bits = grin_core::global::min_edge_bits();
 					h.ledger.commit_header(&mut b);
 					vcommon::world::skip_pow_proof(&mut b.header, &mut pf);
-					let r = chain.process_block(b.clone(), opts);
+					// as received from a peer, as received while syncing, as handed over by the node's own miner
+					let (otag, o) = [("", opts), ("+SYNC", opts | Options::SYNC), ("+MINE", opts | Options::MINE)][p.usize_below(3)];
+					let r = chain.process_block(b.clone(), o);
 					forged += 1;
 					run.count(&format!("chain_forged_refused.{}", name), 1);
-					run.eval(&format!("chain;{};{}", sig, name), true);
+					run.count(&format!("chain_forged_delivered.options{}", if otag.is_empty() { "_plain" } else { otag }), 1);
+					run.eval(&format!("chain;{};{}{}", sig, name, otag), true);
 					if r.is_ok() {
 						run.violation(
-							&format!("C01;chain;value_creating_block_accepted;{}", name),
-							&format!("block {} ({}) accepted by process_block", b.hash(), name),
+							&format!("C01;chain;value_creating_block_accepted;{}{}", name, otag),
+							&format!("block {} ({}) accepted by process_block with options {:?}", b.hash(), name, o),
 							replay.clone(),
 						);
 						break;
